@@ -530,7 +530,7 @@ func (s *Storage) LoadMinServiceGCSafePoint(now time.Time) (*ServiceSafePoint, e
 	}
 
 	hasGCWorker := false
-	min := &ServiceSafePoint{SafePoint: math.MaxUint64}
+	var min *ServiceSafePoint
 	for i, key := range keys {
 		ssp := &ServiceSafePoint{}
 		if err := json.Unmarshal([]byte(values[i]), ssp); err != nil {
@@ -552,12 +552,12 @@ func (s *Storage) LoadMinServiceGCSafePoint(now time.Time) (*ServiceSafePoint, e
 			s.Remove(key)
 			continue
 		}
-		if ssp.SafePoint < min.SafePoint {
+		if min == nil || ssp.SafePoint < min.SafePoint {
 			min = ssp
 		}
 	}
 
-	if min.SafePoint == math.MaxUint64 {
+	if min == nil {
 		// There's no valid safepoints and we have no way to recover it. Just set gc_worker to 0.
 		log.Info("there are no valid service safepoints. init gc_worker's service safepoint to 0")
 		return s.initServiceGCSafePointForGCWorker(0)
